@@ -101,6 +101,17 @@ func params(p string) map[string]int {
 
 func opts(o *vrt.Options) { o.LongTimer = time.Minute }
 
+// writerPref: the same program with the writer preference of sync.RWMutex modelled (a pending Lock blocks
+// new RLocks): recursive read locking under the pool's life-cycle lock deadlocks only then.
+func writerPref(p string) bool { return params(p)["wa"] == 1 }
+
+func optsFor(p string) func(o *vrt.Options) {
+	return func(o *vrt.Options) {
+		opts(o)
+		o.WriterAnnounce = writerPref(p)
+	}
+}
+
 func init() {
 	// busy: one worker slot is held by a gated job, K further jobs are sent by S sender threads (the
 	// channel holds 2*W of them, the rest take the deferred path), all Sends must return while the gate
@@ -108,7 +119,7 @@ func init() {
 	conc.Register("pool-busy", func(p string) *conc.Scenario {
 		m := params(p)
 		W, K, S, L := max(m["w"], 1), m["k"], max(m["s"], 1), m["l"]
-		return &conc.Scenario{Options: opts, Body: func() (string, string) {
+		return &conc.Scenario{Options: optsFor(p), Body: func() (string, string) {
 			vrt.SetBranching(false)
 			e := newEnv(W, W+K+L)
 			ctx := context.Background()
@@ -160,7 +171,7 @@ func init() {
 	conc.Register("pool-stop", func(p string) *conc.Scenario {
 		m := params(p)
 		W, K, G := max(m["w"], 1), m["k"], m["g"]
-		return &conc.Scenario{Options: opts, Body: func() (string, string) {
+		return &conc.Scenario{Options: optsFor(p), Body: func() (string, string) {
 			vrt.SetBranching(false)
 			e := newEnv(W, K+1)
 			ctx := context.Background()
@@ -202,7 +213,7 @@ func init() {
 	conc.Register("pool-restart", func(p string) *conc.Scenario {
 		m := params(p)
 		W := max(m["w"], 1)
-		return &conc.Scenario{Options: opts, Body: func() (string, string) {
+		return &conc.Scenario{Options: optsFor(p), Body: func() (string, string) {
 			e := newEnv(W, 4)
 			ctx := context.Background()
 			e.p.Run(ctx)
@@ -236,7 +247,7 @@ func init() {
 	conc.Register("pool-sched", func(p string) *conc.Scenario {
 		m := params(p)
 		W := max(m["w"], 1)
-		return &conc.Scenario{Options: opts, Body: func() (string, string) {
+		return &conc.Scenario{Options: optsFor(p), Body: func() (string, string) {
 			vrt.SetBranching(false)
 			e := newEnv(W, 1)
 			ctx := context.Background()
@@ -274,8 +285,8 @@ func init() {
 	})
 
 	// order: Send / Stop before the first Run, and Stop racing Stop.
-	conc.Register("pool-send-before-run", func(string) *conc.Scenario {
-		return &conc.Scenario{Options: opts, Body: func() (string, string) {
+	conc.Register("pool-send-before-run", func(p string) *conc.Scenario {
+		return &conc.Scenario{Options: optsFor(p), Body: func() (string, string) {
 			e := newEnv(1, 1)
 			e.p.Send(context.Background(), e.job(0, nil))
 			vrt.Quiesce()
@@ -288,8 +299,8 @@ func init() {
 			return leak(), outcome(e)
 		}}
 	})
-	conc.Register("pool-stop-before-run", func(string) *conc.Scenario {
-		return &conc.Scenario{Options: opts, Body: func() (string, string) {
+	conc.Register("pool-stop-before-run", func(p string) *conc.Scenario {
+		return &conc.Scenario{Options: optsFor(p), Body: func() (string, string) {
 			e := newEnv(1, 1)
 			e.p.Stop()
 			e.p.Run(context.Background())
@@ -305,7 +316,7 @@ func init() {
 	})
 	// stop-busy: the worker is held, the channel is full, a sender is parked in Send when Stop arrives.
 	conc.Register("pool-stop-busy", func(p string) *conc.Scenario {
-		return &conc.Scenario{Options: opts, Body: func() (string, string) {
+		return &conc.Scenario{Options: optsFor(p), Body: func() (string, string) {
 			vrt.SetBranching(false)
 			e := newEnv(1, 4)
 			ctx := context.Background()
@@ -337,7 +348,7 @@ func init() {
 	conc.Register("pool-stop-busy-restart", func(p string) *conc.Scenario {
 		m := params(p)
 		// the late sender's time-out is the subject: it may fire at any moment at no cost
-		o := func(o *vrt.Options) { opts(o); o.FreeTimers = true }
+		o := func(o *vrt.Options) { opts(o); o.FreeTimers = true; o.WriterAnnounce = writerPref(p) }
 		return &conc.Scenario{Options: o, Body: func() (string, string) {
 			vrt.SetBranching(false)
 			e := newEnv(1, 9)
@@ -406,7 +417,7 @@ func init() {
 	// held and the channel is full; Stop runs in another thread. Whatever the sender does after its timed
 	// wait must still be covered by Stop.
 	conc.Register("pool-stop-deferring", func(p string) *conc.Scenario {
-		o := func(o *vrt.Options) { opts(o); o.FreeTimers = true }
+		o := func(o *vrt.Options) { opts(o); o.FreeTimers = true; o.WriterAnnounce = writerPref(p) }
 		return &conc.Scenario{Options: o, Body: func() (string, string) {
 			vrt.SetBranching(false)
 			e := newEnv(1, 4)
@@ -435,7 +446,7 @@ func init() {
 	// restart-race: a second life of the pool begins (Run) while a Send and a Stop are in flight.
 	conc.Register("pool-restart-race", func(p string) *conc.Scenario {
 		m := params(p)
-		return &conc.Scenario{Options: opts, Body: func() (string, string) {
+		return &conc.Scenario{Options: optsFor(p), Body: func() (string, string) {
 			vrt.SetBranching(false)
 			e := newEnv(1, 2)
 			ctx := context.Background()
@@ -462,8 +473,8 @@ func init() {
 			return leak(), outcome(e)
 		}}
 	})
-	conc.Register("pool-stop-stop", func(string) *conc.Scenario {
-		return &conc.Scenario{Options: opts, Body: func() (string, string) {
+	conc.Register("pool-stop-stop", func(p string) *conc.Scenario {
+		return &conc.Scenario{Options: optsFor(p), Body: func() (string, string) {
 			vrt.SetBranching(false)
 			e := newEnv(1, 1)
 			ctx := context.Background()
